@@ -11,6 +11,7 @@ import PV.Driver.Locks
 import PV.Driver.HashX
 import PV.Driver.RWLock
 import PV.Driver.UThread
+import PV.Driver.Socket
 def main (args : List String) : IO UInt32 := do
   match args with
   | ["ht"] => PV.Driver.HT.run; return 0
@@ -27,4 +28,5 @@ def main (args : List String) : IO UInt32 := do
   | ["rwlock"] => PV.Driver.RWLock.run; return 0
   | ["rwlock-posix"] => PV.Driver.RWLock.runPosix; return 0
   | ["uthread"] => PV.Driver.UThread.run; return 0
+  | ["socket"] => PV.Driver.Socket.run; return 0
   | _ => IO.eprintln "usage: pvdriver <family>  (ops on stdin)"; return 2
